@@ -490,6 +490,7 @@ ASMJIT_FAVOR_SIZE Error init_func_detail(FuncDetail& func, const FuncSignature& 
             // passed indirectly, the address can be passed via register, if the argument's index has GP one.
             if (TypeUtils::is_float(type_id)) {
               arg.assign_stack_offset(int32_t(stack_offset));
+              stack_offset += 8;
             }
             else {
               uint32_t gp_reg_id = Reg::kIdBad;
@@ -501,12 +502,12 @@ ASMJIT_FAVOR_SIZE Error init_func_detail(FuncDetail& func, const FuncSignature& 
               }
               else {
                 arg.assign_stack_offset(int32_t(stack_offset));
+                stack_offset += 8;
               }
               arg.add_flags(FuncValue::kFlagIsIndirect);
             }
 
-            // Always 8 bytes (float/double/pointer).
-            stack_offset += 8;
+            // A stack slot (always 8 bytes - float/double/pointer) is only consumed when the argument is passed by stack.
             continue;
           }
         }
